@@ -429,9 +429,9 @@ BODIES = [
      '<xsl:template match="/"><o><xsl:for-each select="//*|//text()|//comment()"><n>'
      '<xsl:number level="any"/>|<xsl:number/>|<xsl:number level="multiple"/>'
      '</n></xsl:for-each></o></xsl:template>\n'),
-    # level="any" with from=: the backwards walk of ElemNumber::getPreviousNode tests `from` only when it climbs from a
-    # first child to its parent, so a physically present stripped text node changes which elements get tested
-    # (known finding C13-number-any-from; root cause is the `from` handling, DESIGN.md section 6 item 8)
+    # level="any" with from=: before /repo f84b15b the backwards walk of ElemNumber::getPreviousNode tested `from` only
+    # when it climbed from a first child to its parent, so a physically present stripped text node changed which
+    # elements got tested (former known finding C13-number-any-from); kept as its own body
     ("number-any-from", OUT_XML +
      '<xsl:template match="/"><o><xsl:for-each select="//text()|//*"><n>'
      '<xsl:number level="any" count="text()" from="a"/>|<xsl:number level="any" count="node()" from="b"/>'
